@@ -32,6 +32,10 @@ pub fn lonlat_to_cell(lonlat: LonLat, resolution: i32) -> Result<u64, String> {
         return Ok(WORLD_CELL);
     }
 
+    // Longitude is periodic: reduce it first (the f64 remainder is exact), otherwise 360 * k + x loses
+    // digits to the longitude offset and the degree -> radian conversion and lands in another cell than x
+    let lonlat = LonLat::new(lonlat.longitude() % 360.0, lonlat.latitude());
+
     if resolution < FIRST_HILBERT_RESOLUTION {
         // For low resolutions there is no Hilbert curve, so we can just return as the result is exact
         let estimate = lonlat_to_estimate(lonlat, resolution)?;
